@@ -271,7 +271,9 @@ def check(L, tier, log, samples):
         last = classified[-1] if classified else None
         # 1. a creation error is raised only for a duplicate critical stream, and for every duplicate within the call
         if creation_errs:
-            if last is None or last[1] not in ("Control", "Encoder", "Decoder"):
+            if last is not None and last[1] == "Push":
+                pass        # RFC 9114 6.2.2 lets (for a server: obliges) an endpoint refuse a push stream; the property is silent
+            elif last is None or last[1] not in ("Control", "Encoder", "Decoder"):
                 viols.append({"key": "c04.accept_recv.creation_error_for_other_stream",
                               "what": "H3_STREAM_CREATION_ERROR is raised for a stream that is not a duplicate control/encoder/decoder stream",
                               "model": {"classified": classified}})
@@ -308,7 +310,7 @@ def check(L, tier, log, samples):
                 # the data is discarded is the implementation's choice (RFC 9114 6.2): recorded, not judged
                 if [e for e in stops if e[1] == tag]:
                     wit["unknown_stopped"] = True
-            if kind in ("Unknown", "Push", "WebTransportUni") and last == (tag, kind) and errs and not s.world.get("transport_error") \
+            if kind in ("Unknown", "WebTransportUni") and last == (tag, kind) and errs and not s.world.get("transport_error") \
                     and not any(k in ("IncomingError", "InternalError") for _, k in s.world["poll_type"]):
                 viols.append({"key": "c04.accept_recv.connection_error_for_harmless_stream",
                               "what": f"a {kind} stream raises a connection error", "model": {"classified": classified}})
@@ -336,7 +338,8 @@ def check(L, tier, log, samples):
                 wit["ended_before_header_dropped"] = True
                 if any(c[0] == tag for c in classified):
                     viols.append({"key": "c04.accept_recv.ended_stream_classified", "what": "a stream that ended before its header is classified", "model": {}})
-        harmless_only = not s.world.get("transport_error") and not any(k in ("IncomingError", "InternalError") for _, k in s.world["poll_type"]) and not creation_errs
+        harmless_only = (not s.world.get("transport_error") and not any(k in ("IncomingError", "InternalError") for _, k in s.world["poll_type"]) and not creation_errs
+                         and not any(k == "Push" for _, k in classified))
         if harmless_only and (errs or not ok):
             viols.append({"key": "c04.accept_recv.connection_error_without_cause",
                           "what": "a connection error / Err is produced although no duplicate critical stream and no transport error occurred",
